@@ -651,6 +651,17 @@ def canonical():
     return _CANON
 
 
+def stability_note():
+    """Re-run the canonical order at the end of a task: [] if it still gives the digest used as
+    reference, else a warning (the source tree was modified while the task was running)."""
+    c = canonical()
+    r = run_program([{"op": "finish"}, {"op": "digest", "table": "public", "label": "public"}])
+    if "crash" not in r and r["digests"]["public"]["hash"] == c["hash"]:
+        return []
+    return ["WARNING: the canonical digest changed while this task was running (source tree "
+            "modified concurrently?): differences reported by this run are unreliable, rerun"]
+
+
 def same_value(a, b):
     """Event values are equal; exceptions compare by type."""
     if isinstance(a, dict) and "exc" in a and isinstance(b, dict) and "exc" in b:
